@@ -2,6 +2,7 @@ package main
 
 import (
 	"fmt"
+	"go/token"
 	"go/types"
 	"strings"
 
@@ -27,12 +28,15 @@ func checkC17(c *Ctx) {
 	c.evalAcceptRule(p, "C17.threshold", "Recover with exactly t (=2) shares is refused", rec, map[string]lat{"t": latInt(2), "shares": latSliceLen(2)}, nil, false)
 	c.evalAcceptRule(p, "C17.threshold", "Recover with no shares is refused (t=0)", rec, map[string]lat{"t": latInt(0), "shares": latSliceLen(0)}, nil, false)
 	c.guard(p, "C17.threshold", "Recover refuses repeated share identifiers", rec, GuardSpec{Args: map[string]lat{"t": latInt(2), "shares": latSliceLen(3)}, Assumes: []Assume{calleeAssume(latFalse, -1, "math/polynomial.areAllDifferent")}})
+	c.rejectReasonsRule(p, "C17.threshold", reasonSpec{pkg: ss, name: "Recover", why: "fewer than t+1 shares", conds: []string{`len\(param#1\) <= param#0`}})
 	ver := p.Func(ss, "", "Verify")
 	c.evalAcceptRule(p, "C17.threshold", "Verify with a commitment of t coefficients is refused", ver, map[string]lat{"t": latInt(2), "c": latSliceLen(2)}, nil, false)
 	c.evalAcceptRule(p, "C17.threshold", "Verify with a commitment of t+2 coefficients is refused", ver, map[string]lat{"t": latInt(2), "c": latSliceLen(4)}, nil, false)
 	okLen := map[string]lat{"t": latInt(2), "c": latSliceLen(3)}
 	c.guard(p, "C17.threshold", "share with identifier zero is refused", ver, GuardSpec{Args: okLen, Assumes: []Assume{calleeAssume(latTrue, -1, "invoke (group.Scalar).IsZero")}})
 	c.guard(p, "C17.threshold", "share accepted only if g^value equals the commitment evaluated at the identifier", ver, GuardSpec{Args: okLen, Assumes: []Assume{calleeAssume(latFalse, -1, "invoke (group.Element).IsEqual")}})
+	c.rejectReasonsRule(p, "C17.threshold", reasonSpec{pkg: ss, name: "Verify", why: "commitment length, zero identifier, the Feldman equation",
+		callees: []string{"invoke (group.Scalar).IsZero", "invoke (group.Element).IsEqual"}, conds: []string{`^\(len\(param#2\)!=\(param#0\+1\)\)$`}})
 	c.depRule(p, "C17.dep", "verdict depends on share identifier, value and commitment", ver, sinkResult(), "param:s", "param:c")
 	c.loopPassesThrough(p, "C17.dep", "every commitment coefficient enters the evaluation", ver, okLen, "sum.Add(sum, c[i])", p.isCallTo(0, nil, "invoke (group.Element).Add"))
 	// Verify insists on exactly t+1 commitments: the dealer has to publish t+1 whatever the values of the
@@ -100,6 +104,27 @@ func checkC17(c *Ctx) {
 			g, ok := ci.Common().Args[0].(*ssa.Call)
 			return ok && p.staticCalleeName(&g.Call) == "(*math/big.Int).GCD"
 		}}}})
+	// PSS salt length selection: -1 (rsa.PSSSaltLengthEqualsHash, the TLS 1.3 choice) means the hash size and 0
+	// (rsa.PSSSaltLengthAuto) the maximum - decided on the switch of PadPSS by constant propagation
+	{
+		pp := p.Func(tr+"/internal/pss", "", "PadPSS")
+		saltLoad := func(v ssa.Value, _ *ssa.Function) bool {
+			u, ok := v.(*ssa.UnOp)
+			if !ok || u.Op != token.MUL {
+				return false
+			}
+			fa, ok := u.X.(*ssa.FieldAddr)
+			return ok && fieldName(fa) == "SaltLength"
+		}
+		for _, t := range []struct {
+			v       int64
+			maximal bool
+			what    string
+		}{{-1, false, "PSSSaltLengthEqualsHash selects a salt of the hash size, not the maximal one"}, {0, true, "PSSSaltLengthAuto selects the maximal salt"}, {20, false, "an explicit salt length is used as given"}} {
+			c.reachRule(p, "C17.exact", t.what, pp, map[string]lat{"opts": latNonNil}, nil,
+				[]ValAssume{{Name: sprintf("opts.SaltLength = %d", t.v), Match: saltLoad, Val: latInt(t.v)}}, "(*math/big.Int).BitLen", t.maximal)
+		}
+	}
 	cs := p.Func(tr, "", "CombineSignShares")
 	c.evalAcceptRule(p, "C17.threshold", "empty share list is refused", cs, map[string]lat{"shares": latSliceLen(0)}, nil, false)
 	c.guard(p, "C17.threshold", "combined signature is returned only after the self-check y^e == x", cs, GuardSpec{Args: map[string]lat{"shares": latNonEmpty}, Assumes: []Assume{calleeAssume(latInt(1), -1, "(*math/big.Int).Cmp")}})
